@@ -304,6 +304,66 @@ def check_one(ctx, apkmod, rng, entries0, situation, comment, kinds, sample=Fals
         ctx.sample({"names": names, "manifest": situation, "dex": want_dex, "multidex": len(want_dex) > 1, "zip_bytes": len(raw)})
 
 
+def path_histories(ctx, apkmod, rng, count):
+    """APK objects built from a PATH (raw=False): the file at one path is replaced by another archive between two constructions - of another size, and of
+    exactly the same size with the same modification time (the archive comment pads the shorter one). Each object reports the archive that was at the
+    path when it was built."""
+    import os
+    import shutil
+    import tempfile
+    APK = apkmod.APK
+    root = tempfile.mkdtemp(prefix="vf_c34_")
+    try:
+        for k in range(count):
+            ex, _, _, _ = gen_archive(rng)
+            ey, _, _, _ = gen_archive(rng)
+            ex = [e for e in ex if e.name != "AndroidManifest.xml"]
+            ey = [e for e in ey if e.name != "AndroidManifest.xml"] + [apkw.Entry("only-in-the-second-%d.txt" % k, b"second", apkw.STORED)]
+            x0, y0 = apkw.build_zip(ex, b""), apkw.build_zip(ey, b"")
+            same_size = k % 2 == 0 and abs(len(x0) - len(y0)) < 60000
+            if same_size:
+                x = apkw.build_zip(ex, b"p" * max(0, len(y0) - len(x0)))
+                y = apkw.build_zip(ey, b"q" * max(0, len(x0) - len(y0)))
+                if len(x) != len(y):
+                    same_size = False
+            if not same_size:
+                x, y = x0, y0
+            path = os.path.join(root, "app%d.apk" % k)
+            hist = []
+            for label, data, entries in (("first", x, ex), ("second", y, ey), ("first-again", x, ex)):
+                with open(path, "wb") as f:
+                    f.write(data)
+                os.utime(path, (1700000000, 1700000000))      # the same modification time for every version
+                hist.append(label)
+                ctx.ev()
+                ctx.count("APK_built_from_a_path_whose_file_was_replaced" if len(hist) > 1 else "APK_built_from_a_path")
+                if same_size and len(hist) > 1:
+                    ctx.count("replaced_by_an_archive_of_the_same_size_and_mtime")
+                wit = {"history": hist, "same_size_and_mtime": same_size, "sizes": [len(x), len(y)], "want": sorted(e.name for e in entries)[:20]}
+                try:
+                    a = APK(path)
+                    got = sorted(a.get_files())
+                    want = sorted(e.name for e in entries)
+                    if got != want:
+                        ctx.violation("path-object-lists-another-archive", "an APK built from a path lists the entries of the archive that was at that path earlier", dict(wit, got=got[:20]))
+                        break
+                    bad = [e.name for e in entries if bytes(a.get_file(e.name)) != e.data]
+                    if bad:
+                        ctx.violation("path-object-content-of-another-archive", "an APK built from a path returns content that is not the entry's", dict(wit, names=bad[:5]))
+                        break
+                    if label == "first":
+                        try:
+                            a.get_file("only-in-the-second-%d.txt" % k)
+                            ctx.violation("path-object-missing-entry-readable", "an entry that is not in the archive is readable", wit)
+                        except apkmod.FileNotPresent:
+                            pass
+                except Exception as e:
+                    ctx.violation("path-object-raises", "APK(path) / file access raises on a well-formed archive", dict(wit, exc=exc_str(e)))
+                    break
+    finally:
+        shutil.rmtree(root, ignore_errors=True)
+
+
 def shard(ctx, arg):
     idx, count, big = arg
     from androguard.core import apk as apkmod
@@ -311,6 +371,7 @@ def shard(ctx, arg):
     for k in range(count):
         entries, situation, comment, kinds = gen_archive(rng, big=(big and k == 0))
         check_one(ctx, apkmod, rng, entries, situation, comment, kinds, sample=(idx < 3 and k == 1))
+    path_histories(ctx, apkmod, ctx.rng("c34-paths", idx), 6 if ctx.quick else 60)
     if idx == 0:
         # fixed corner cases: empty archive, manifest only, every look-alike alone next to classes.dex
         check_one(ctx, apkmod, rng, [], "absent", b"", [])
@@ -339,6 +400,8 @@ def run(ctx):
     for c in ("APK_constructed", "get_files", "get_dex_names", "get_all_dex", "is_multidex"):
         ctx.require_counter(c, 200)
     ctx.require_counter("get_file_present", 1000)
+    ctx.require_counter("APK_built_from_a_path_whose_file_was_replaced", 100)
+    ctx.require_counter("replaced_by_an_archive_of_the_same_size_and_mtime", 30)
     ctx.require_counter("get_file_absent", 1000)
     ctx.min_distinct = 50
 
